@@ -7,7 +7,8 @@
 
    * skipfree/src/lib.rs SkipListIterator (next / prev / seek / seek_to_first / seek_to_last /
      is_valid) and lsmtk/src/kvs/memtable.rs SkipListIteratorWrapper: `gcur`.  The position is a
-     NODE (identified by its entry), not an index: the list grows under the iterator.
+     NODE (identified by its entry), not an index: the list grows under the iterator (`xrefresh`
+     shows every wrapper the list as it is now, before each call of the cursor).
      NB seek_to_first() positions AT the first node (get_next(head, 0)), not before it, and a new
      iterator is at the END (node = null).
    * sst/src/lazy_cursor.rs LazyCursor (Cursor.Lazy) with a counter of establish_cursor() calls,
@@ -225,16 +226,6 @@ Fixpoint xmems (u : xst) : list N :=
   | XB _ _ (mkB cur _ _) => xmems cur
   | XP _ (mkP cur _ _) => xmems cur
   end.
-Fixpoint xsize (u : xst) : nat :=          (* entries of the sst tables under the state *)
-  match u with
-  | XG _ _ => 0%nat
-  | XL _ mk _ => length (t_tab mk)
-  | XM (mkM _ kids) => fold_right (fun k a => (xsize k + a)%nat) 0%nat kids
-  | XC (mkK kids _ _) => fold_right (fun k a => (xsize k + a)%nat) 0%nat kids
-  | XB _ _ (mkB cur _ _) => xsize cur
-  | XP _ (mkP cur _ _) => xsize cur
-  end.
-
 Definition opens_of (f : N) (l : list (N * nat * bool)) : nat :=
   fold_right (fun x a => if N.eqb (fst (fst x)) f then snd (fst x) + a else a) 0 l.
 (* the files on which establish_cursor() ran between two states of one cursor *)
@@ -554,3 +545,40 @@ Definition contents (s : machine) : list entry :=
 (* what a scan opened now with these bounds must show, and keep showing *)
 Definition scan_spec (s : machine) (lo hi : bound) : list entry :=
   bounds_spec lo hi (prune_spec (ms_vis s) (contents s)).
+
+(* ---- the same, composed the way range_scan composes it (what the theorems show the cursor to
+        be); `scan_wfb` is what the combinators need of the store, as a checker *)
+Definition level_part (lo hi : bound) (level : list file) : list (list entry) :=
+  match filter (overlaps lo hi) level with [] => [] | fs => [concat (map f_ents fs)] end.
+Definition ver_parts (lo hi : bound) (v : list (list file)) : list (list entry) :=
+  map f_ents (hd [] v) ++ flat_map (level_part lo hi) (tl v).
+Definition ver_list (lo hi : bound) (v : list (list file)) : list entry := merge_spec (ver_parts lo hi v).
+Definition top_parts (lo hi : bound) (ls : list (list entry)) (v : list (list file)) : list (list entry) :=
+  map (bounds_spec lo hi) ls ++ [ver_list lo hi v].
+Definition scan_list (lo hi : bound) (t : N) (ls : list (list entry)) (v : list (list file)) : list entry :=
+  bounds_spec lo hi (prune_spec t (merge_spec (top_parts lo hi ls v))).
+
+Definition total_size (ls : list (list entry)) (v : list (list file)) : nat :=
+  length (concat ls) + length (concat (map f_ents (concat v))).
+
+
+Fixpoint sortedb (l : list entry) : bool :=
+  match l with [] => true | a :: r => forallb (eltb a) r && sortedb r end.
+Fixpoint distinctb (l : list entry) : bool :=
+  match l with
+  | [] => true
+  | a :: r => forallb (fun b => match ecmp a b with Eq => false | _ => true end) r && distinctb r
+  end.
+Definition scan_wfb (lo hi : bound) (ls : list (list entry)) (v : list (list file)) : bool :=
+  forallb sortedb ls &&
+  forallb (fun f => sortedb (f_ents f)) (concat v) &&
+  forallb (fun level => sortedb (concat (map f_ents (filter (overlaps lo hi) level)))) (tl v) &&
+  distinctb (concat (ver_parts lo hi v)) &&
+  distinctb (concat (top_parts lo hi ls v)).
+
+(* at the state in which a scan is about to be opened *)
+Definition open_list (s : machine) (lo hi : bound) : list entry :=
+  scan_list lo hi (ms_vis s) (map (look_of s) (open_mems s)) (cur_levels s).
+Definition open_wfb (c : cfg) (s : machine) (lo hi : bound) : bool :=
+  scan_wfb lo hi (map (look_of s) (open_mems s)) (cur_levels s) &&
+  (total_size (map (look_of s) (open_mems s)) (cur_levels s) + 2 <=? cf_fuel c).
